@@ -129,6 +129,12 @@ impl Histogram {
         }
     }
 
+    /// Verification hook: a code with the single symbol given.
+    #[cfg(jxl_oxide_verif)]
+    pub(crate) fn verif_single_symbol(symbol: u16) -> Self {
+        Self::with_single_symbol(symbol)
+    }
+
     pub fn parse(bitstream: &mut Bitstream, alphabet_size: u32) -> CodingResult<Self> {
         if alphabet_size == 1 {
             return Ok(Self::with_single_symbol(0));
